@@ -34,6 +34,8 @@ def exec_SC(t):
         if sp == 'npint' and all(v.denominator == 1 for v in vs):
             # integer values in the narrowest NumPy integer type that holds them (scalar or array): v - bias must not wrap in that width
             dt = next(d for d in (np.int8, np.uint8, np.int16, np.uint16, np.int32, np.int64) if all(np.iinfo(d).min <= int(v) <= np.iinfo(d).max for v in vs))
+            if all(v >= 0 for v in vs) and (len(vs) + sum(int(v) % 5 for v in vs)) % 3 == 0:
+                dt = np.uint64 if int(vs[0]) % 2 else np.uint32        # the wide unsigned types: v - bias must not wrap at zero either
             v_in = dt(vals[0]) if len(vals) == 1 else np.array(vals, dtype=dt)
         kw = dict(rounding=r, overflow=o, scale=num(sc, 'int' if sp == 'npint' else sp), bias=num(bi, 'int' if sp == 'npint' else sp))
         lo, hi = lims(s, n)
